@@ -196,7 +196,7 @@ func runC08(r *core.Run) {
 		}
 		s := wworld.NewWSim(rng, w)
 		cfg := wworld.FullCfg()
-		seq := w.T.Seq()
+		cursor := 0
 		seeds := map[string][]byte{}
 		deriveAll := func() {
 			for _, wn := range w.Wallets {
@@ -224,11 +224,9 @@ func runC08(r *core.Run) {
 					known.fromProofs(ht.Proofs, "proofs returned by "+wn.Name)
 				}
 			}
-			for _, rec := range w.T.Since(seq) {
-				if !hosts[rec.Host] {
-					continue
-				}
-				seq = rec.Seq
+			var recs []*inproc.Record
+			recs, cursor = w.Rec.From(cursor)
+			for _, rec := range recs {
 				if len(rec.ReqBody) == 0 {
 					continue
 				}
@@ -242,6 +240,7 @@ func runC08(r *core.Run) {
 					r.Sample(rec.Path, map[string]any{"endpoint": rec.Method + " " + rec.Path, "body": truncStr(string(rec.ReqBody), 300)})
 				}
 			}
+			w.Rec.Forget(cursor)
 		}
 		if noDLEQ {
 			// mint-side variant: responses carry no DLEQ (a mint without NUT-12)
